@@ -15,9 +15,9 @@ EXPLANATION = (
     "equation and deleting it would not compose). unsnake: every obstruction loop performs exactly one interchange, one yield and one "
     "index update of the matching end (cap += 1 / cup -= 1), so the pair ends adjacent; the deletion cuts boxes, offsets and layers "
     "with identical index expressions under a checked >> and keeps dom/cod; every yielded value comes from interchange or from this "
-    "deletion; the tail delegates to the monoidal normaliser. Cup/Cap constructors refuse non-adjoint types. Not decided: the "
-    "re-indexing of right_obstruction inside unsnake (a wrong index there surfaces as an exception from the verified primitives, "
-    "never as a silently different morphism).")
+    "deletion; the tail delegates to the monoidal normaliser. Cup/Cap constructors refuse non-adjoint types. The re-indexing of the "
+    "other list of obstructions after each move is decided as well (the recorded indices beyond the moved box shift by one), and the search returns every pair that "
+    "satisfies the four conditions (completeness), not only such pairs. Not decided: denotational equality (snake equations and the interchange law, cited).")
 
 RW, RIG = "discopy.rewriting", "discopy.rigid"
 Q = RW + ".snake_removal"
